@@ -10,6 +10,7 @@ mod oracle;
 mod remote;
 mod run;
 mod script;
+mod store;
 
 use common::{json, CaseOut, Json, Rng, Session};
 
@@ -141,6 +142,7 @@ fn run_script(cfg: &script::Config, script: &[Step], rng: &mut Rng, out: &mut Ca
     }
     let sample: Json = json!({
         "lanes": cfg.lanes.iter().map(|l| format!("{}:{}{}", l.name, l.kind.name(), if l.transient { ":transient" } else { "" })).collect::<Vec<_>>(),
+        "with_store": cfg.with_store, "queue": cfg.queue,
         "remotes": cfg.remotes, "cap_out": cfg.cap_out, "prune_ms": cfg.prune_ms, "inactive_ms": cfg.inactive_ms, "reporting": cfg.reporting,
         "script": describe(script).into_iter().take(14).collect::<Vec<_>>(),
         "frames_received": sum.frames,
@@ -148,11 +150,22 @@ fn run_script(cfg: &script::Config, script: &[Step], rng: &mut Rng, out: &mut Ca
     out.set_sample(sample);
 }
 
-fn run_one(focus: Focus, len: usize, rng: &mut Rng, out: &mut CaseOut) {
+fn run_one(focus: Focus, len: usize, case: u64, rng: &mut Rng, out: &mut CaseOut) {
     let mut g = Gen::new(rng);
-    let cfg = g.config(focus);
+    let mut cfg = g.config(focus);
     let script = g.script(focus, &cfg, len);
     drop(g);
+    // the lanes the running agent registers later follow the ordinary ones (the script counted on that)
+    let late = std::mem::take(&mut cfg.late);
+    cfg.lanes.extend(late);
+    // Inactivity conversations: every other case is hosted with a store and lanes that are not transient (the
+    // same conversation otherwise), so that lane events carry a store id inside the runtime.
+    if matches!(focus, Focus::Inactivity | Focus::InactivityOneWay) && case % 2 == 1 {
+        cfg.with_store = true;
+        for l in cfg.lanes.iter_mut() {
+            l.transient = false;
+        }
+    }
     run_script(&cfg, &script, rng, out);
 }
 
@@ -172,8 +185,8 @@ fn debug_script(which: u64, rng: &mut Rng) -> (script::Config, Vec<Step>) {
     cfg.prune_ms = None;
     cfg.inactive_ms = None;
     cfg.lanes = vec![
-        lanes::LaneSpec { name: "v0".into(), kind: lanes::LK::Value, transient: false, in_buf: 4096, out_buf: 4096, initial: Bytes::from_static(b"init0") },
-        lanes::LaneSpec { name: "m1".into(), kind: lanes::LK::Map, transient: true, in_buf: 4096, out_buf: 4096, initial: Bytes::new() },
+        lanes::LaneSpec { name: "v0".into(), kind: lanes::LK::Value, transient: false, in_buf: 4096, out_buf: 4096, initial: Bytes::from_static(b"init0"), late: false },
+        lanes::LaneSpec { name: "m1".into(), kind: lanes::LK::Map, transient: true, in_buf: 4096, out_buf: 4096, initial: Bytes::new(), late: false },
     ];
     let set = |b: &'static str| Step::Lane(0, LaneCtl::Set(Bytes::from_static(b.as_bytes())));
     let script = match which {
@@ -325,7 +338,7 @@ fn main() {
             out.verbose = true;
             let mut rng = Rng::for_case(seed, &part, case);
             let len = rng.range(8, len_max) as usize;
-            run_one(focus, len, &mut rng, out);
+            run_one(focus, len, case, &mut rng, out);
         });
         s.finish();
     }
@@ -350,9 +363,9 @@ fn main() {
             rule,
             false,
             n,
-            |_i, rng, out| {
+            |i, rng, out| {
                 let len = rng.range(8, len_max) as usize;
-                run_one(focus, len, rng, out);
+                run_one(focus, len, i, rng, out);
             },
         );
     }
